@@ -27,7 +27,7 @@ CLAIMS = {
             "EIP-7702 authorisation/nonce rules are revm's"),
     "C10": ("narrow: every status operation of CacheAccountInfo (selfdestruct, touch_empty_eip161, newly_created, change, account_info_change, increment_balance, drain_balance) proved against one common contract that revm-database's own source text also satisfies (U14); the shared read view serves exactly what the cache holds after one atomic insert-if-absent step and never overwrites an entry (U15 db_basic/db_storage/db_code_by_hash/load_mut_cache_account); apply_account_state of grevm and of revm-database's own source text satisfy one dispatch contract (U16); the parallel bundle builder, on an empty bundle, leaves exactly what merging the transitions one by one in some enumeration order leaves (state, contracts, sizes, one new block of reverts kept only when retention asks for them), and delegates to revm's own merge otherwise (U18, against a transcribed oracle of revm's Vacant-entry arm); drain_balances drains every argument address once through the committed cache, reports balance i for address i and hands exactly the transitions (address i, transition i), in argument order, to the transition state, increment_balances / increment_balance_transitions do the same for every non-zero increment and skip zero amounts, an error hands over nothing (U30; the `impl IntoIterator` argument is taken as the Vec of its items, R29).",
             "rayon is given its sequential meaning (R22); the slot map built inside newly_created/change (iterator chain, abstracted), update_storage_slot, take_bundle/merge_transitions and concurrent cache filling (finding F1) are not covered"),
-    "C11": ("narrow (last sentence of the statement and the installation path): mutations in a static context are refused before any change; a recorded fault is sticky (U17 facade) and overrides whatever the implementation returns in the alloy adapter (U17 to_alloy); both EVM construction paths register the same custom precompiles in order (U21 build_evm).",
+    "C11": ("narrow (last sentence of the statement and the installation path): mutations in a static context are refused before any change; a recorded fault is sticky (U17 facade) and overrides whatever the implementation returns in the alloy adapter (U17 to_alloy); both EVM construction paths register the same custom precompiles in order (U21 build_evm). A storage read made through the facade reaches IncarnationDb::storage through the journal, whose read tracking (slot and reset-marker locations recorded, latest preceding writer resolved, estimates block) is proved in U12 (storage.E1).",
             "conflict detection of facade accesses end-to-end needs revm's journal and is not covered"),
     "C12": ("per-function obligations: policy inert before Prague, exact otherwise (U19 for_spec); the guard halts exactly when the frame's TARGET carries a designator, static / pre-Petersburg errors keep upstream's order, otherwise it IS upstream create after one host call (U19 guarded_create); the instruction table is revm's with exactly CREATE and CREATE2 replaced by the two guard instantiations, and it is swapped in iff the guard is on and the fork is Prague or later (U21).",
             "bit-identical behaviour of every other opcode rests on revm (assumed)"),
